@@ -27,46 +27,21 @@ def nontrivial(sc):
     return ('Revert', 'ok') in acts and (('Load', 'ok') in acts or ('Save', 'ok') in acts)
 
 
-def main(argv):
-    chk = core.Check('C09', 'model_checking', argv)
-    thorough = chk.tier == 'thorough'
-    r = pipeline.model_check(chk, 'BlockStore', 'MC_BlockStore_thorough.cfg' if thorough else 'MC_BlockStore_quick.cfg',
-                             workers=14 if thorough else 8, timeout=2400 if thorough else 400,
-                             heap='24g' if thorough else None)
-    r2 = None
-    if not thorough:
-        r2 = pipeline.model_check(chk, 'BlockStore', 'MC_BlockStore_quick.cfg', workers=8, timeout=400,
-                                  subst={'RmMissingErr = TRUE': 'RmMissingErr = FALSE'})
-    scripts = []
-    for rr in [r, r2]:
-        if rr is None:
-            continue
-        if rr.violated and rr.trace:
-            sc = {'id': 'model-cex-%s' % rr.violated, 'rmok': rr is r2,
-                  'steps': [dict(tlaval.plain(s['state']['act']), **stepfn(s['state'])) for s in rr.trace[1:]]}
-            scripts.append(sc)
-        elif not rr.ok:
-            chk.infra('model checking did not complete:\n' + rr.stdout[-2000:])
+def gen_store_scripts(chk, num, depth, seed):
+    out = []
+    for rmok in (False, True):
+        ss = pipeline.sim_scripts(chk, 'BlockStore', 'Sim_BlockStore.cfg', num=num, depth=depth, seed=seed, stepfn=stepfn,
+                                  prefix='sim-rmok' if rmok else 'sim-rmerr',
+                                  subst={'RmMissingErr = TRUE': 'RmMissingErr = FALSE'} if rmok else None)
+        for s in ss:
+            s['rmok'] = rmok
+        out += ss
+    return out
 
-    if chk.replay:
-        rp = json.load(open(chk.replay))
-        scripts = [rp['replay']['script']]
-    else:
-        for a in pipeline.attack_scripts('C09', 'BlockStore'):
-            for rmok in (False, True):
-                scripts.append({'id': a['id'] + ('-rmok' if rmok else ''), 'rmok': rmok, 'steps': a['steps'], 'attack': a.get('attack')})
-        nsim = 5 if thorough else 1
-        for k in range(nsim):
-            for rmok in (False, True):
-                ss = pipeline.sim_scripts(chk, 'BlockStore', 'Sim_BlockStore.cfg', num=400 if thorough else 60,
-                                          depth=40 if thorough else 28, seed=chk.seed * 1000 + k, stepfn=stepfn,
-                                          prefix='sim-rmok' if rmok else 'sim-rmerr',
-                                          subst={'RmMissingErr = TRUE': 'RmMissingErr = FALSE'} if rmok else None)
-                for s in ss:
-                    s['rmok'] = rmok
-                scripts += ss
+
+def replay_and_judge(chk, scripts):
+    """Replay BlockStore scripts on the real repository, judge (contract layer) and validate (code layer)."""
     ids = {s['id']: s for s in scripts}
-
     payload = dict(CFG)
     names = sorted(RHOS)
     for i, s in enumerate(scripts):
@@ -111,6 +86,49 @@ def main(argv):
             rej_all += [job[3][j - 1] for j in res[1]]
     chk.log('judge Props_BlockStore + conform Trace_BlockStore: %d TLC jobs, %d false formula instances, %d rejected lines' % (
         len(jobs), len(bad), len(rej_all)))
+
+    return lines, groups, bad, rej_all, ids
+
+
+def main(argv):
+    chk = core.Check('C09', 'model_checking', argv)
+    thorough = chk.tier == 'thorough'
+    r = pipeline.model_check(chk, 'BlockStore', 'MC_BlockStore_thorough.cfg' if thorough else 'MC_BlockStore_quick.cfg',
+                             workers=14 if thorough else 8, timeout=2400 if thorough else 400,
+                             heap='24g' if thorough else None)
+    r2 = None
+    if not thorough:
+        r2 = pipeline.model_check(chk, 'BlockStore', 'MC_BlockStore_quick.cfg', workers=8, timeout=400,
+                                  subst={'RmMissingErr = TRUE': 'RmMissingErr = FALSE'})
+    scripts = []
+    for rr in [r, r2]:
+        if rr is None:
+            continue
+        if rr.violated and rr.trace:
+            sc = {'id': 'model-cex-%s' % rr.violated, 'rmok': rr is r2,
+                  'steps': [dict(tlaval.plain(s['state']['act']), **stepfn(s['state'])) for s in rr.trace[1:]]}
+            scripts.append(sc)
+        elif not rr.ok:
+            chk.infra('model checking did not complete:\n' + rr.stdout[-2000:])
+
+    if chk.replay:
+        rp = json.load(open(chk.replay))
+        scripts = [rp['replay']['script']]
+    else:
+        for a in pipeline.attack_scripts('C09', 'BlockStore'):
+            for rmok in (False, True):
+                scripts.append({'id': a['id'] + ('-rmok' if rmok else ''), 'rmok': rmok, 'steps': a['steps'], 'attack': a.get('attack')})
+        nsim = 5 if thorough else 1
+        for k in range(nsim):
+            for rmok in (False, True):
+                ss = pipeline.sim_scripts(chk, 'BlockStore', 'Sim_BlockStore.cfg', num=400 if thorough else 60,
+                                          depth=40 if thorough else 28, seed=chk.seed * 1000 + k, stepfn=stepfn,
+                                          prefix='sim-rmok' if rmok else 'sim-rmerr',
+                                          subst={'RmMissingErr = TRUE': 'RmMissingErr = FALSE'} if rmok else None)
+                for s in ss:
+                    s['rmok'] = rmok
+                scripts += ss
+    lines, groups, bad, rej_all, ids = replay_and_judge(chk, scripts)
 
     def report(formula, line):
         ln = lines[line - 1]
